@@ -87,7 +87,16 @@ WNameDot(n, dv) == IF n = <<>> THEN <<DOT>>
 WNameDisplayDot(n, dv) ==
   IF n = <<>> THEN (IF "D_display_root_dot" \in dv THEN <<DOT, DOT>> ELSE <<DOT>>)
   ELSE JoinWith([i \in 1..Len(n) |-> WLabel(n[i], dv)], <<DOT>>) \o <<DOT>>
-WName(n, kind, dv) == IF kind = "display" THEN WNameDisplayDot(n, dv) ELSE WNameDot(n, dv)
+\* an equivalent spelling the writers do not use but the reader must take for
+\* the same name: relative to the origin RelOrigin (kind "relative": the
+\* specification's text only; tokens as the simple writer sets them)
+RelOrigin == << <<101, 120>> >>                     \* ex.
+UnderRelOrigin(n) == Len(n) > Len(RelOrigin) /\ SubSeq(n, Len(n) - Len(RelOrigin) + 1, Len(n)) = RelOrigin
+WNameRel(n, dv) == IF UnderRelOrigin(n)
+                   THEN JoinWith([i \in 1..(Len(n) - Len(RelOrigin)) |-> WLabel(n[i], dv)], <<DOT>>)
+                   ELSE WNameDot(n, dv)
+WName(n, kind, dv) == IF kind = "display" THEN WNameDisplayDot(n, dv)
+                      ELSE IF kind = "relative" THEN WNameRel(n, dv) ELSE WNameDot(n, dv)
 
 \* --- mnemonics -----------------------------------------------------------
 Mnemo(table, prefix, v) ==
@@ -110,12 +119,30 @@ GenericWords(data) == <<<<BSL, HASH>>, DecDigits(Len(data))>> \o [i \in 1..Len(d
 \* Field kinds: tokens with an alphabet / a validation of their own.
 \* A value is an octet sequence (text kinds) or a number (numeric kinds).
 UpperAZ == 65..90    LowerAZ == 97..122    Digits09 == 48..57
-FieldKinds == {"caa_tag", "u8", "u16", "str8", "rtype", "salt", "hex"}
+FieldKinds == {"caa_tag", "u8", "u16", "str8", "rtype", "salt", "hex", "u32", "b64"}
+\* "u32": a 32-bit field (Serial, Ttl::scan / u32::scan, Timestamp in its
+\* numeric form).  TLC's integers end at 2^31 - 1, so a value is its four
+\* big-endian octets and the decimal text is computed on two 16-bit limbs.
+RECURSIVE Dec32L(_, _)
+Dec32L(hi, lo) == IF hi = 0 /\ lo < 10 THEN <<48 + lo>>
+                  ELSE LET m == (hi % 10) * 65536 + lo IN Dec32L(hi \div 10, m \div 10) \o <<48 + (m % 10)>>
+Dec32(o) == Dec32L(o[1] * 256 + o[2], o[3] * 256 + o[4])
+\* reading it: decimal digits only (escapes are no digits), checked_mul / checked_add
+RECURSIVE Scan32From(_, _, _, _)
+Scan32From(syms, i, hi, lo) ==
+  IF i > Len(syms) THEN [r |-> "ok", v |-> <<hi \div 256, hi % 256, lo \div 256, lo % 256>>]
+  ELSE LET s == syms[i] IN
+    IF ~(IsPlain(s) /\ IsDigit(s)) THEN ErrR
+    ELSE LET l == lo * 10 + (s - 48)
+             h == hi * 10 + (l \div 65536)
+         IN IF h > 65535 THEN ErrR ELSE Scan32From(syms, i + 1, h, l % 65536)
+Scan32(tok) == Scan32From(tok.syms, 1, 0, 0)
+IsU32(v) == Len(v) = 4 /\ \A i \in 1..4 : v[i] \in 0..255
 \* text kinds: the octets a value may consist of (CaaTag::check_slice:
 \* is_ascii_alphanumeric; salt / hex data: any octet) ...
 FieldAlphabet(k) ==
   CASE k = "caa_tag" -> UpperAZ \cup LowerAZ \cup Digits09
-    [] k \in {"salt", "hex"} -> 0..255
+    [] k \in {"salt", "hex", "b64"} -> 0..255
 \* ... its boundary characters and the characters just outside ('@' '[' '`'
 \* '{' '/' ':' and '-', which RFC 8659 mentions for future tags)
 FieldBoundary(k) == CASE k = "caa_tag" -> {65, 90, 97, 122, 48, 57}
@@ -130,7 +157,8 @@ Admitted(k, v, dv) ==
                         /\ (Len(v) >= 1 \/ "D_caa_empty_tag" \in dv)
     [] k \in {"u8", "u16", "str8", "rtype"} -> v \in 0..FieldMax(k)
     [] k = "salt" -> Len(v) <= 255 /\ \A i \in 1..Len(v) : v[i] \in FieldAlphabet(k)
-    [] k = "hex" -> Len(v) >= 1 /\ \A i \in 1..Len(v) : v[i] \in FieldAlphabet(k)
+    [] k \in {"hex", "b64"} -> Len(v) >= 1 /\ \A i \in 1..Len(v) : v[i] \in FieldAlphabet(k)
+    [] k = "u32" -> IsU32(v)
 
 HexOf(d) == Concat([i \in 1..Len(d) |-> HexByte(d[i])])
 \* the writer of the token
@@ -140,6 +168,8 @@ FieldWrite(k, v) ==
     [] k = "rtype" -> WType(v)
     [] k = "salt" -> IF v = <<>> THEN <<45>> ELSE HexOf(v)   \* RFC 5155 3.3: "-"
     [] k = "hex" -> HexOf(v)
+    [] k = "u32" -> Dec32(v)
+    [] k = "b64" -> B16!Enc64(v)
 \* the reader of the token (a token item of ZoneFile.tla): [r |-> "ok", v |-> value] or an error
 FieldRead(k, tok) ==
   CASE k = "caa_tag" ->     \* CaaTag::scan: CharStr::scan, then check_slice
@@ -153,12 +183,14 @@ FieldRead(k, tok) ==
     [] k = "rtype" -> LET a == ScanAscii(tok) IN IF a.r # "ok" THEN ErrR ELSE RtypeOf(a.s)
     [] k = "salt" -> LET x == SaltOf(tok) IN IF x.r # "ok" THEN x ELSE [r |-> "ok", v |-> x.o]
     [] k = "hex" -> LET x == HexDecode(tok.syms) IN IF x.r # "ok" THEN x ELSE [r |-> "ok", v |-> x.o]
+    [] k = "u32" -> Scan32(tok)
+    [] k = "b64" -> LET x == B64Decode(tok.syms) IN IF x.r # "ok" THEN x ELSE [r |-> "ok", v |-> x.o]
 FieldWire(k, v) ==
   CASE k = "caa_tag" -> <<Len(v)>> \o v
     [] k \in {"u8", "str8"} -> <<v>>
     [] k \in {"u16", "rtype"} -> EncU16(v)
     [] k = "salt" -> <<Len(v)>> \o v
-    [] k = "hex" -> v
+    [] k \in {"hex", "u32", "b64"} -> v
 \* a bare token as the tokenizer hands it on (no escapes in these alphabets)
 PlainTok(t, q) == [k |-> "tok", q |-> q, sp |-> TRUE, syms |-> t, p0 |-> 0, nx |-> SP]
 \* the law, for one field
@@ -173,8 +205,21 @@ FieldsOf(rd) ==
   ELSE IF rd.t = 47 THEN LET ts == SortedSeq(rd.types) IN [i \in 1..Len(ts) |-> <<"rtype", ts[i]>>]
   ELSE IF rd.t = 52 THEN << <<"str8", rd.u>>, <<"str8", rd.s>>, <<"str8", rd.m>>, <<"hex", rd.data>> >>
   ELSE IF rd.t = 51 THEN << <<"str8", rd.alg>>, <<"u8", rd.fl>>, <<"u16", rd.it>>, <<"salt", rd.salt>> >>
+  ELSE IF rd.t = 6 THEN << <<"u32", rd.serial>>, <<"u32", rd.refresh>>, <<"u32", rd.retry>>, <<"u32", rd.expire>>, <<"u32", rd.minimum>> >>
+  ELSE IF rd.t = 46 THEN << <<"rtype", rd.covered>>, <<"str8", rd.alg>>, <<"u8", rd.labels>>, <<"u32", rd.ottl>>, <<"u32", rd.exp>>,
+                            <<"u32", rd.inc>>, <<"u16", rd.tag>>, <<"b64", rd.sig>> >>
+  ELSE <<>>
+\* every name inside the record data, in writing order
+RdNamesOf(rd) ==
+  IF rd.t \in NameTypes \cup {15, 47} THEN <<rd.name>>
+  ELSE IF rd.t = 6 THEN <<rd.mname, rd.rname>>
+  ELSE IF rd.t = 46 THEN <<rd.signer>>
   ELSE <<>>
 AllAdmitted(rd, dv) == \A i \in 1..Len(FieldsOf(rd)) : Admitted(FieldsOf(rd)[i][1], FieldsOf(rd)[i][2], dv)
+\* ... and the names: what Name / the builders / the wire parser admit is Names.tla's ValidAbs
+PL == INSTANCE PresentLimits
+NamesAdmitted(r) == PL!ValidAbs(r.owner) /\ \A i \in 1..Len(RdNamesOf(r.rd)) : PL!ValidAbs(RdNamesOf(r.rd)[i])
+RecAdmitted(r, dv) == AllAdmitted(r.rd, dv) /\ NamesAdmitted(r)
 
 WRdata(rd, kind, dv) ==
   IF rd.t = 16 THEN <<Open>> \o [i \in 1..Len(rd.strs) |-> Tok(WQuoted(rd.strs[i]))] \o <<Close>>
@@ -189,6 +234,14 @@ WRdata(rd, kind, dv) ==
                            Tok(FieldWrite("hex", rd.data)), Close>>
   ELSE IF rd.t = 51 THEN <<Open, Tok(FieldWrite("str8", rd.alg)), Tok(FieldWrite("u8", rd.fl)), Cmt(<<102, 108>>),
                            Tok(FieldWrite("u16", rd.it)), Cmt(<<105, 116>>), Tok(FieldWrite("salt", rd.salt)), Close>>
+  ELSE IF rd.t = 6 THEN <<Open, Tok(WName(rd.mname, kind, dv)), Cmt(<<109>>), Tok(WName(rd.rname, kind, dv)), Cmt(<<114>>),
+                          Tok(FieldWrite("u32", rd.serial)), Cmt(<<115>>), Tok(FieldWrite("u32", rd.refresh)), Cmt(<<114, 102>>),
+                          Tok(FieldWrite("u32", rd.retry)), Cmt(<<114, 116>>), Tok(FieldWrite("u32", rd.expire)), Cmt(<<101>>),
+                          Tok(FieldWrite("u32", rd.minimum)), Cmt(<<109, 105>>), Close>>
+  ELSE IF rd.t = 46 THEN <<Open, Tok(FieldWrite("rtype", rd.covered)), Tok(FieldWrite("str8", rd.alg)), Tok(FieldWrite("u8", rd.labels)), Cmt(<<108>>),
+                           Tok(FieldWrite("u32", rd.ottl)), Cmt(<<111>>), Tok(FieldWrite("u32", rd.exp)), Cmt(<<101>>),
+                           Tok(FieldWrite("u32", rd.inc)), Cmt(<<105>>), Tok(FieldWrite("u16", rd.tag)), Cmt(<<107>>),
+                           Tok(WName(rd.signer, kind, dv)), Cmt(<<115>>), Tok(FieldWrite("b64", rd.sig)), Close>>
   ELSE <<Tok(JoinWith(GenericWords(rd.data), <<SP>>))>>     \* one token with spaces inside
 
 Write(r, kind, dv) ==
@@ -237,6 +290,9 @@ RdWire(rd) ==
   ELSE IF rd.t = 47 THEN WireName(rd.name) \o WindowsFrom(rd.types, 0)
   ELSE IF rd.t = 52 THEN <<rd.u, rd.s, rd.m>> \o rd.data
   ELSE IF rd.t = 51 THEN <<rd.alg, rd.fl>> \o EncU16(rd.it) \o FieldWire("salt", rd.salt)
+  ELSE IF rd.t = 6 THEN WireName(rd.mname) \o WireName(rd.rname) \o rd.serial \o rd.refresh \o rd.retry \o rd.expire \o rd.minimum
+  ELSE IF rd.t = 46 THEN EncU16(rd.covered) \o <<rd.alg, rd.labels>> \o rd.ottl \o rd.exp \o rd.inc \o EncU16(rd.tag)
+                         \o WireName(rd.signer) \o rd.sig
   ELSE rd.data
 AsEntry(r) == [owner |-> WireName(r.owner), class |-> r.class, ttl |-> r.ttl,
                rtype |-> r.rd.t, rdata |-> RdWire(r.rd)]
@@ -259,9 +315,40 @@ RdCaa(toks, i, mode) ==
     IF f.r # "ok" THEN ErrR ELSE IF t.r # "ok" THEN ErrR ELSE IF v.r # "ok" THEN ErrR
     ELSE IF mode # "lf" \/ i + 2 < Len(toks) THEN ErrR
     ELSE RdOk(FieldWire("u8", f.v) \o FieldWire("caa_tag", t.v) \o v.o)
-XTypes == {257}
+\* the fixed fields of a record in front, by FieldRead: [r |-> "ok", o |-> wire, next] or an error
+RECURSIVE XFieldsFrom(_, _, _, _, _)
+XFieldsFrom(kinds, k, toks, i, acc) ==
+  IF k > Len(kinds) THEN [r |-> "ok", o |-> acc, next |-> i]
+  ELSE IF i > Len(toks) THEN ErrR
+  ELSE LET f == FieldRead(kinds[k], toks[i])
+       IN IF f.r # "ok" THEN ErrR ELSE XFieldsFrom(kinds, k + 1, toks, i + 1, acc \o FieldWire(kinds[k], f.v))
+\* SOA (Soa::scan): two names, Serial::scan, four times Ttl::scan, over the whole
+\* 32-bit range (the reader of ZoneFile.tla abstains from 2^31 on)
+RdSoaX(toks, i, mode, origin) ==
+  IF i + 1 > Len(toks) THEN ErrR
+  ELSE LET m == ScanName(toks[i], origin, {})  rn == ScanName(toks[i + 1], origin, {}) IN
+    IF m.r # "ok" THEN ErrR ELSE IF rn.r # "ok" THEN ErrR
+    ELSE LET f == XFieldsFrom(<<"u32", "u32", "u32", "u32", "u32">>, 1, toks, i + 2, <<>>) IN
+      IF f.r # "ok" THEN ErrR
+      ELSE IF mode # "lf" \/ f.next <= Len(toks) THEN ErrR
+      ELSE RdOk(m.n \o rn.n \o f.o)
+\* RRSIG (Rrsig::scan): type covered, algorithm, labels, original TTL (Ttl::scan),
+\* expiration / inception (at most ten digits: a number), key tag, signer, Base 64
+RdRrsigX(toks, i, mode, origin) ==
+  LET f == XFieldsFrom(<<"rtype", "str8", "u8", "u32", "u32", "u32", "u16">>, 1, toks, i, <<>>) IN
+  IF f.r # "ok" THEN ErrR
+  ELSE IF f.next + 1 > Len(toks) THEN ErrR
+  ELSE LET sg == ScanName(toks[f.next], origin, {})
+           d == B64Decode(EntrySyms(toks, f.next + 1)) IN
+    IF sg.r # "ok" THEN ErrR ELSE IF d.r # "ok" THEN ErrR
+    ELSE IF mode # "lf" THEN ErrR
+    ELSE IF Len(toks[f.next - 3].syms) > 10 \/ Len(toks[f.next - 2].syms) > 10 THEN UnmodR   \* a date, not a number
+    ELSE RdOk(f.o \o sg.n \o d.o)
+XTypes == {257, 6, 46}
 RdataX(rtype, toks, i, mode, origin, dv) ==
-  IF rtype \in XTypes /\ ~(i <= Len(toks) /\ IsMarker(toks[i])) THEN RdCaa(toks, i, mode)
+  IF rtype \in XTypes /\ ~(i <= Len(toks) /\ IsMarker(toks[i]))
+  THEN (IF rtype = 257 THEN RdCaa(toks, i, mode)
+        ELSE IF rtype = 6 THEN RdSoaX(toks, i, mode, origin) ELSE RdRrsigX(toks, i, mode, origin))
   ELSE Rdata(rtype, toks, i, mode, origin, dv)
 \* one line holding one record, through the tokenizer of ZoneFile.tla, scan_name,
 \* scan_ctr and RdataX; Unmodelled unless the line is of that shape and of an XType
@@ -283,6 +370,7 @@ ReadLineX(text, origin) ==
     ELSE LET o == ScanName(toks[1], origin, {})
              rd == RdataX(c.rtype, toks, c.next, "lf", origin, {}) IN
       IF o.r = "unmod" THEN Unmodelled
+      ELSE IF rd.r = "unmod" THEN Unmodelled
       ELSE IF o.r # "ok" \/ rd.r # "ok" THEN ErrOutcome
       ELSE [entries |-> <<[owner |-> o.n, class |-> c.class, ttl |-> c.ttl, rtype |-> c.rtype, rdata |-> rd.rd]>>, err |-> FALSE]
 \* the reader of ZoneFile.tla, and where it abstains the line reader above
@@ -370,6 +458,11 @@ RdTokens(rd, kind, dv) ==
          <<u(WName(rd.name, kind, dv))>> \o [i \in 1..Len(ts) |-> u(FieldWrite("rtype", ts[i]))]
   ELSE IF rd.t = 52 THEN <<u(FieldWrite("str8", rd.u)), u(FieldWrite("str8", rd.s)), u(FieldWrite("str8", rd.m)), u(FieldWrite("hex", rd.data))>>
   ELSE IF rd.t = 51 THEN <<u(FieldWrite("str8", rd.alg)), u(FieldWrite("u8", rd.fl)), u(FieldWrite("u16", rd.it)), u(FieldWrite("salt", rd.salt))>>
+  ELSE IF rd.t = 6 THEN <<u(WName(rd.mname, kind, dv)), u(WName(rd.rname, kind, dv)), u(FieldWrite("u32", rd.serial)), u(FieldWrite("u32", rd.refresh)),
+                          u(FieldWrite("u32", rd.retry)), u(FieldWrite("u32", rd.expire)), u(FieldWrite("u32", rd.minimum))>>
+  ELSE IF rd.t = 46 THEN <<u(FieldWrite("rtype", rd.covered)), u(FieldWrite("str8", rd.alg)), u(FieldWrite("u8", rd.labels)), u(FieldWrite("u32", rd.ottl)),
+                           u(FieldWrite("u32", rd.exp)), u(FieldWrite("u32", rd.inc)), u(FieldWrite("u16", rd.tag)), u(WName(rd.signer, kind, dv)),
+                           u(FieldWrite("b64", rd.sig))>>
   ELSE LET w == GenericWords(rd.data) IN [i \in 1..Len(w) |-> u(w[i])]
 
 \* reading them: the record-data scanners of ZoneFile.tla on the symbols
